@@ -7,7 +7,7 @@ import ImathVerif.Gen.C13Algo
 All FOUR overloads, mirrored statement by statement:
 
 * `transform (box, m)`            → `transform`           (returns the box)
-* `transform (box, m, result)`    → `transformOut`        (the OLD value of `result` is an input)
+* `transform (box, m, result)`    → `transformOut`        (old `result` is an input; every path overwrites it)
 * `affineTransform (box, m)`      → `affineTransform`
 * `affineTransform (box, m, res)` → `affineTransformOut`  (old `result` is an input; every path overwrites it)
 
@@ -67,11 +67,11 @@ def transform (tmax tlowest : α) (b : Box3 α) (m : M44 α) : Box3 α :=
   else projective (Gen.Box3.default tmax tlowest) b m    -- `Box newBox;` (default = empty), extended 8 times
 
 /-- `void transform (const Box<Vec3<S>>& box, const Matrix44<T>& m, Box<Vec3<S>>& result)`:
-returns the final value of `result` -/
+returns the final value of `result` (the old value is an input; after the repair 6dca912 every path overwrites it) -/
 def transformOut (tmax tlowest : α) (b : Box3 α) (m : M44 α) (result : Box3 α) : Box3 α :=
-  if emptyOrInfinite tmax tlowest b then result          -- `{ return; }` : result untouched
-  else if isAffine m then arvo b m                       -- result.min[i] = result.max[i] = m[3][i]; += ...
-  else projective result b m                             -- `result.extendBy (points[i] * m)` on the OLD result
+  if emptyOrInfinite tmax tlowest b then b                 -- `{ result = box; return; }`
+  else if isAffine m then arvo b m                         -- result.min[i] = result.max[i] = m[3][i]; += ...
+  else projective (Gen.Box3.makeEmpty tmax tlowest result) b m   -- `result.makeEmpty ();` then `result.extendBy (points[i] * m)`
 
 /-- `Box<Vec3<S>> affineTransform (const Box<Vec3<S>>& box, const Matrix44<T>& m)` -/
 def affineTransform (tmax tlowest : α) (b : Box3 α) (m : M44 α) : Box3 α :=
